@@ -47,6 +47,9 @@ class move_token_left_to_next_non_whitespace_token(structure.Rule):
                 continue
             if oToi.token_type_exists(token.pragma.pragma):
                 continue
+            iNext = oToi.get_end_index()
+            bEndOfLine = iNext >= len(oFile.lAllObjects) or isinstance(oFile.lAllObjects[iNext], parser.carriage_return)
+            oToi.set_meta_data("bEndOfLine", bEndOfLine)
             lReturn.append(oToi)
         return lReturn
 
@@ -72,6 +75,8 @@ class move_token_left_to_next_non_whitespace_token(structure.Rule):
 
         if self.bRemoveTrailingWhitespace:
             lNewTokens = utils.remove_trailing_whitespace(lNewTokens)
+            if type(lNewTokens[-1]) is parser.comment and not oViolation.oTokens.get_meta_data("bEndOfLine"):
+                rules_utils.append_carriage_return(lNewTokens)
 
         lNewTokens = utils.fix_blank_lines(lNewTokens)
 
